@@ -33,6 +33,9 @@ func (a c08wResult) eq(b c08wResult) bool {
 	if (a.err != nil) != (b.err != nil) {
 		return false
 	}
+	if a.err != nil {
+		return true // refused is refused
+	}
 	return RowsEq(a.rows, b.rows, false)
 }
 
@@ -107,10 +110,20 @@ func c08wOps() []c08wOp {
 	}
 }
 
-var c08wWriters = []struct{ name, sql string }{
-	{"row-changes", "BEGIN; UPDATE t SET v = 'changed' WHERE id % 3 = 0; DELETE FROM t WHERE id = 7; INSERT INTO t VALUES (100, 'v3', 'new'); UPDATE w SET v = 33 WHERE k = 'c'; COMMIT"},
-	{"schema-change", "BEGIN; ALTER TABLE t ADD COLUMN extra DEFAULT 'd'; CREATE INDEX t_pad ON t (pad); UPDATE t SET v = 'v3' WHERE id = 2; COMMIT"},
-	{"delete+vacuum", "DELETE FROM t WHERE id > 12; VACUUM"},
+type c08wWriter struct {
+	name, sql string
+	refused   bool // after this transaction the file must be refused (e.g. it is in WAL mode)
+}
+
+// header changes that make the file unsupported: committed in the window they must be noticed by that very read (C15)
+var c15wWriters = []c08wWriter{
+	{"switch-to-WAL", "PRAGMA journal_mode=WAL; INSERT INTO t VALUES (200, 'wal', 'only in the wal')", true},
+}
+
+var c08wWriters = []c08wWriter{
+	{"row-changes", "BEGIN; UPDATE t SET v = 'changed' WHERE id % 3 = 0; DELETE FROM t WHERE id = 7; INSERT INTO t VALUES (100, 'v3', 'new'); UPDATE w SET v = 33 WHERE k = 'c'; COMMIT", false},
+	{"schema-change", "BEGIN; ALTER TABLE t ADD COLUMN extra DEFAULT 'd'; CREATE INDEX t_pad ON t (pad); UPDATE t SET v = 'v3' WHERE id = 2; COMMIT", false},
+	{"delete+vacuum", "DELETE FROM t WHERE id > 12; VACUUM", false},
 }
 
 const c08wSetup = `PRAGMA page_size=512;
@@ -140,7 +153,9 @@ func c08wOracle(l *lite.DB, op c08wOp) c08wResult {
 	return c08wResult{rows, err}
 }
 
-func c08Window(r *ev.Run) {
+func c08Window(r *ev.Run) { windowFamily(r, "C08", c08wWriters) }
+
+func windowFamily(r *ev.Run, prop string, writers []c08wWriter) {
 	dir := ev.TmpDir("c08w")
 	defer os.RemoveAll(dir)
 	peer, err := StartPeer()
@@ -152,11 +167,11 @@ func c08Window(r *ev.Run) {
 	base := filepath.Join(dir, "base.sqlite")
 	l, err := lite.Open(base, "")
 	if err != nil {
-		r.Harness("C08 window base: %v", err)
+		r.Harness(prop+" window base: %v", err)
 		return
 	}
 	if err := l.Exec(c08wSetup); err != nil {
-		r.Harness("C08 window base: %v", err)
+		r.Harness(prop+" window base: %v", err)
 		l.Close()
 		return
 	}
@@ -170,25 +185,31 @@ func c08Window(r *ev.Run) {
 	r.StateBytes(baseBytes)
 	n := 0
 	windows := 0
-	for wi, w := range c08wWriters {
+	for wi, w := range writers {
 		// the state after the writer's transaction, from SQLite itself
 		ap := filepath.Join(dir, fmt.Sprintf("after%d.sqlite", wi))
 		os.WriteFile(ap, baseBytes, 0o644)
 		la, err := lite.Open(ap, "")
 		if err != nil {
-			r.Harness("C08 window after: %v", err)
+			r.Harness(prop+" window after: %v", err)
 			return
 		}
 		if err := la.Exec(w.sql); err != nil {
-			r.Harness("C08 window writer %s: %v", w.name, err)
+			r.Harness(prop+" window writer %s: %v", w.name, err)
 			la.Close()
 			return
 		}
 		after := make([]c08wResult, len(ops))
 		for i, op := range ops {
 			after[i] = c08wOracle(la, op)
+			if w.refused {
+				after[i] = c08wResult{err: fmt.Errorf("the file must be refused now")}
+			}
 		}
 		la.Close()
+		for _, ext := range []string{"-wal", "-shm", "-journal"} {
+			os.Remove(ap + ext)
+		}
 		r.Validated(1)
 		for oi, op := range ops {
 			for _, cold := range []bool{false, true} {
@@ -216,7 +237,7 @@ func c08Window(r *ev.Run) {
 						r.Sample(art)
 					}
 					if !cold && !res.warm.eq(before[oi]) {
-						r.Violation("C08:window:first-read", fmt.Sprintf("%s before any change: %s, SQLite %s", op.name, res.warm, before[oi]), art)
+						r.Violation(prop+":window:first-read", fmt.Sprintf("%s before any change: %s, SQLite %s", op.name, res.warm, before[oi]), art)
 						continue
 					}
 					committed := res.commit == "ok"
@@ -227,9 +248,9 @@ func c08Window(r *ev.Run) {
 					case committed && !res.lockedBefore:
 						// the commit was complete before this read asked for its lock
 						if !res.second.eq(after[oi]) {
-							sig := "C08:window:stale-read"
+							sig := prop + ":window:stale-read"
 							if res.second.eq(before[oi]) {
-								sig = "C08:window:stale-read:old-state"
+								sig = prop + ":window:stale-read:old-state"
 							}
 							r.Violation(sig, fmt.Sprintf("%s on a handle that has read before, %s commits at boundary %d of %d (%s; no lock held yet): the read returns %s, SQLite now has %s", op.name, w.name, k, events, res.at, res.second, after[oi]), art)
 						}
@@ -237,11 +258,11 @@ func c08Window(r *ev.Run) {
 						// a commit while the reader held its lock, or between two transactions of one call: old or new
 						r.Outcome("commit-inside-the-call")
 						if !res.second.eq(after[oi]) && !res.second.eq(before[oi]) {
-							r.Violation("C08:window:mixed-read", fmt.Sprintf("%s, %s commits at boundary %d of %d (%s): the read returns %s - neither the old state (%s) nor the new (%s)", op.name, w.name, k, events, res.at, res.second, before[oi], after[oi]), art)
+							r.Violation(prop+":window:mixed-read", fmt.Sprintf("%s, %s commits at boundary %d of %d (%s): the read returns %s - neither the old state (%s) nor the new (%s)", op.name, w.name, k, events, res.at, res.second, before[oi], after[oi]), art)
 						}
 					default:
 						if !res.second.eq(before[oi]) {
-							r.Violation("C08:window:refused-commit-seen", fmt.Sprintf("%s, %s at boundary %d of %d (%s) is refused (%s): the read returns %s, the file still holds %s", op.name, w.name, k, events, res.at, res.commit, res.second, before[oi]), art)
+							r.Violation(prop+":window:refused-commit-seen", fmt.Sprintf("%s, %s at boundary %d of %d (%s) is refused (%s): the read returns %s, the file still holds %s", op.name, w.name, k, events, res.at, res.commit, res.second, before[oi]), art)
 						}
 					}
 					want := before[oi]
@@ -249,7 +270,7 @@ func c08Window(r *ev.Run) {
 						want = after[oi]
 					}
 					if !res.third.eq(want) {
-						r.Violation("C08:window:next-read", fmt.Sprintf("%s after %s (%s) at boundary %d of %d: the next read returns %s, SQLite has %s", op.name, w.name, res.commit, k, events, res.third, want), art)
+						r.Violation(prop+":window:next-read", fmt.Sprintf("%s after %s (%s) at boundary %d of %d: the next read returns %s, SQLite has %s", op.name, w.name, res.commit, k, events, res.third, want), art)
 					}
 				}
 			}
@@ -273,7 +294,7 @@ func c08wRun(r *ev.Run, peer *Peer, path, wsql string, op c08wOp, k int, cold bo
 	res := &c08wRunResult{}
 	real, err := sdb.VerifFilePager(path)
 	if err != nil {
-		r.Harness("C08 window file pager: %v", err)
+		r.Harness("window family: file pager: %v", err)
 		return nil
 	}
 	defer real.Close()
@@ -313,7 +334,7 @@ func c08wRun(r *ev.Run, peer *Peer, path, wsql string, op c08wOp, k int, cold bo
 	}}
 	d, err := sdb.VerifOpen(tp, path+"-journal")
 	if err != nil {
-		r.Harness("C08 window open: %v", err)
+		r.Harness("window family: open: %v", err)
 		return nil
 	}
 	env := &Env{H: sqlittle.VerifWrap(d), D: d}
